@@ -307,6 +307,7 @@ def linear_task(task):
     the BFS are judged."""
     maxr, pattern, length = task[:3]
     with_listener = len(task) > 3 and task[3] == "listener"
+    verbose = len(task) > 3 and task[3] == "verbose"
     eff = 10 if maxr is None else maxr
     s = sc.Scratch("c12lin")
     try:
@@ -327,7 +328,10 @@ def linear_task(task):
                 time.sleep(0.02)
         for i in range(length):
             ri = pattern[i % len(pattern)]
+            if verbose:
+                r.global_flags = ["-vv"]   # the run also prints its own diagnostics (the observers below do not)
             res = r.mr("run", *RUNS[ri]["args"], env=r.trace_env())
+            r.global_flags = None
             doc = res.json()
             history.append(ri)
             if doc is None or res.code not in (0, 1):
@@ -339,7 +343,7 @@ def linear_task(task):
             if v:
                 viol += [(sig, "after run %d of the history: %s" % (i + 1, d)) for sig, d in v]
                 break
-        case = {"linear": [maxr, list(pattern), length] + (["listener"] if with_listener else [])}
+        case = {"linear": [maxr, list(pattern), length] + (["listener"] if with_listener else ["verbose"] if verbose else [])}
         return {"transitions": len(history), "obs": sorted(obs),
                 "violations": [{"sig": sig, "detail": d, "rank": 100000 + len(history), "case": case} for sig, d in viol]}
     except common.EngineError as e:
@@ -394,7 +398,7 @@ def wide_task(n):
 def linear_cases(tier):
     pats = [(0, 1, 2, 3), (2,), (0,)]
     out = [(m, p, 2 * (m or 10) + 3) for m in (10, None, 11) for p in pats]
-    out += [(9, pats[0], 21), (2, pats[0], 9, "listener"), (3, (2, 0, 1), 10, "listener")]
+    out += [(9, pats[0], 21), (2, pats[0], 9, "listener"), (3, (2, 0, 1), 10, "listener"), (2, pats[0], 7, "verbose")]
     if tier != "quick":
         out += [(100, pats[0], 203), (100, pats[1], 103), (12, pats[0], 27), (20, pats[0], 43), (99, pats[0], 102), (101, pats[0], 104)]
     return out
